@@ -523,3 +523,74 @@ func (g *Gen) DynCases(id, k int) []*Case {
 	}
 	return r
 }
+
+// ShortBranchCases: the node follows a long branch A nobody voted for; a strictly SHORTER branch B is then
+// justified and finalized through sup links carried in its block headers (the verification-message path would
+// hang the pinned node on the reorganisation).  The fork choice must move the main chain to B.
+func (g *Gen) ShortBranchCases(id, k int) []*Case {
+	var r []*Case
+	for i := 0; i < k; i++ {
+		n := 4
+		if g.R.Chance(30) {
+			n = []int{3, 5, 7}[g.R.Intn(3)]
+		}
+		local := Outsider
+		if g.R.Bool() {
+			local = g.R.Intn(n)
+		}
+		c := &Case{ID: id + i, Stream: "short-branch-finalized", NKeys: n, Local: local}
+		s := &scen{c}
+		fork := g.R.Intn(4)                 // B leaves A at height 0..3
+		epochs := 2 + g.R.Intn(2)           // B closes 2 or 3 epochs
+		hb := epochs*Epoch + g.R.Intn(2)    // height of B's tip
+		a := s.chain(0, hb+1+g.R.Intn(5))   // A is strictly higher
+		thr := n*2/3 + 1
+		keys := g.perm(n)[:thr+g.R.Intn(n-thr+1)]
+		// the node's own key votes on branch A by itself: its signature for a B checkpoint would be refused
+		var signers []int
+		for _, x := range keys {
+			if x != local {
+				signers = append(signers, x)
+			}
+		}
+		for len(signers) < thr {
+			for x := 0; x < n && len(signers) < thr; x++ {
+				in := x == local
+				for _, y := range signers {
+					in = in || y == x
+				}
+				if !in {
+					signers = append(signers, x)
+				}
+			}
+			if n-1 < thr {
+				break
+			}
+		}
+		parent, src := fork, 0
+		var b []int
+		for h := fork + 1; h <= hb; h++ {
+			self := len(c.Blocks) + 1
+			if h%Epoch == 0 {
+				parent = s.blk(parent, valid(src, self, signers...))
+				src = parent
+			} else {
+				parent = s.blk(parent)
+			}
+			b = append(b, parent)
+		}
+		// A first (completely, or all but its last blocks), then B, then the rest of A
+		cut := len(a)
+		if g.R.Chance(40) {
+			cut = len(a) - 1 - g.R.Intn(2)
+			if cut < hb+1 {
+				cut = hb + 1
+			}
+		}
+		s.deliver(a[:cut]...)
+		s.deliver(b...)
+		s.deliver(a[cut:]...)
+		r = append(r, c)
+	}
+	return r
+}
